@@ -754,7 +754,9 @@ Definition dispatch0 (msg : payload) : M unit :=
 
 Definition ask_recv (msg : payload) : M unit :=
   ask_unit (fun c => match c with
-                     | CRecv t from h v => mtype_eqb t (p_type msg) && (from =? p_idx msg) && (h =? p_height msg) && (v =? p_view msg)
+                     | CRecv t from h v =>
+                         (* h = -1: the library's "too big validator index" log line, which names the sender only *)
+                         (from =? p_idx msg) && ((h =? -1) || (mtype_eqb t (p_type msg) && (h =? p_height msg) && (v =? p_view msg)))
                      | _ => false end).
 (* a nested d.OnReceive(m) call of a non-recovery payload *)
 Definition nestedReceive0 (msg : payload) : M unit := ask_recv msg ;;; receive_common dispatch0 msg.
@@ -815,7 +817,7 @@ Fixpoint replay_map (n : nat) (entries : list (Z * payload)) : M unit :=
       k <- ask (fun c => match c with
                          | CRecv t from h v =>
                              match assoc_get entries from with
-                             | Some m => if mtype_eqb t (p_type m) && (h =? p_height m) && (v =? p_view m) then Some from else None
+                             | Some m => if (h =? -1) || (mtype_eqb t (p_type m) && (h =? p_height m) && (v =? p_view m)) then Some from else None
                              | None => None end
                          | _ => None end) ;;
       match assoc_get entries k with
